@@ -4,7 +4,7 @@ import importlib, json, os, sys, time, hashlib, traceback
 from . import build, facts as factsmod
 
 VERIF = build.VERIF
-EVID = os.path.join(VERIF, "evidence")
+EVID = os.environ.get("VERIF_EVIDENCE") or os.path.join(VERIF, "evidence")     # (scratch runs of the same property in parallel keep their evidence apart)
 KNOWN = os.path.join(VERIF, "known_findings.json")
 
 
@@ -120,7 +120,10 @@ def run_property(prop, tier="quick", seed=0, explain=None):
     evfile = os.path.join(EVID, prop + ".json")
     import glob as _glob
     for old in _glob.glob(os.path.join(EVID, "violations", prop + "-*.json")):
-        os.remove(old)
+        try:
+            os.remove(old)
+        except OSError:
+            pass
     ctx = Ctx(prop, tier, seed)
     mod = importlib.import_module("props." + prop)
     err = None
